@@ -9,6 +9,9 @@ import "errors"
 
 type Bitmap struct {
 	s []uint32
+	// run: RunOptimize was called on this bitmap (the real library may then hold run
+	// containers: HasRunCompression and the serialised bytes differ, the members do not)
+	run bool
 }
 
 func New() *Bitmap       { return &Bitmap{} }
@@ -133,7 +136,7 @@ func Or(x1, x2 *Bitmap) *Bitmap {
 }
 
 func (rb *Bitmap) Clone() *Bitmap {
-	return &Bitmap{s: append([]uint32(nil), rb.s...)}
+	return &Bitmap{s: append([]uint32(nil), rb.s...), run: rb.run}
 }
 
 func (rb *Bitmap) ToArray() []uint32 {
@@ -153,8 +156,9 @@ func (rb *Bitmap) Equals(o interface{}) bool {
 	return true
 }
 
-// RunOptimize only changes the representation of the real bitmap.
-func (rb *Bitmap) RunOptimize() {}
+// RunOptimize only changes the representation of the real bitmap; the model records
+// that it happened (observable through HasRunCompression only).
+func (rb *Bitmap) RunOptimize() { rb.run = true }
 
 func (rb *Bitmap) GetSizeInBytes() uint64 { return 8 + 4*uint64(len(rb.s)) }
 
